@@ -202,7 +202,7 @@ def anticommute(l1: str, l2: str) -> bool:
     return l1 != l2 and l1 in 'XYZ' and l2 in 'XYZ'
 
 
-def validate_paths_at(col, label, paths, loc_vars, coords, real_fn, conv, extra_sub=(), cap=20000):
+def validate_paths_at(col, label, paths, loc_vars, coords, real_fn, conv, extra_sub=(), cap=20000, impure_oid=None):
     """Translation validation of an exploration over a symbolic location: every concrete location of
     `coords` (beyond `cap` path evaluations: a deterministic sample) is substituted into the path conditions;
     exactly one path must hold there, and conv(path value, substitution) must equal real_fn(location) -- the
@@ -240,6 +240,16 @@ def validate_paths_at(col, label, paths, loc_vars, coords, real_fn, conv, extra_
             n_ok += 1
             continue
         got = conv(p.value, sub)
+        if got != want and impure_oid is not None:
+            # before blaming the encoding: is the REAL function a function of the location at all?
+            try:
+                again = real_fn(tuple(loc))
+            except Exception as e:      # noqa
+                again = f'{type(e).__name__}: {e}'
+            if again != want:
+                col.record(impure_oid, 'sat', 0, True, dict(impure=True, location=[int(x) for x in loc]),
+                           f'two calls of the real function at {tuple(loc)} return {str(want)[:200]} and {str(again)[:200]}')
+                return n_ok
         if got != want:
             raise HarnessError(f'{label}: at {tuple(loc)} the symbolic run gives {str(got)[:300]}, the real one '
                                f'{str(want)[:300]}')
